@@ -432,14 +432,49 @@ def packetCreatePinned (failAt : Nat) (respelled : List Bool) (s : St := {}) := 
 def packetCreate (failAt : Nat) (respelled : List Bool) (s : St := {}) := packetCreateGen true failAt respelled s
 
 -- ---------------------------------------------------------------------------------------------------------------
+-- cif_loop_get_names_internal(loop, &names, normalize = 1) (as called by cif_loop_get_packets) for a stored loop with n
+-- ASCII item names: the rows and the array as for `getNames`, then every name is normalised (cif_normalize: three
+-- requests, see `normalize`) into the array while its list node and stored string are released.  Since /repo c161ded a
+-- failing normalisation releases the names normalised so far AND the array, then the rest of the list.
+
+/-- the transfer loop with normalisation; `todo` = list nodes not yet visited (head first), `done` = normalised names so
+    far, most recent first -/
+def namesNormLoop (failAt : Nat) (arr : Nat) : List (Nat × Nat) → List Nat → St → Option (List Nat) × St
+  | [], done, s => (some done, s)
+  | (nd, str) :: rest, done, s =>
+    match normalize failAt s with
+    | (none, s') =>
+      -- free(next_name->string); free(next_name); FAILURE_HANDLER(normalization): the names so far, the array;
+      -- then FAILURE_HANDLER(name): the rest of the list
+      (none, freeNodes rest (free arr (freeAll done (free nd (free str s')))))
+    | (some nm, s') => namesNormLoop failAt arr rest (nm :: done) (free nd (free str s'))
+
+/-- returns (result code, ids owned by the caller afterwards, final state) -/
+def getNamesNorm (failAt : Nat) (n : Nat) (s : St := {}) : Nat × List Nat × St :=
+  match namesRows true failAt n [] s with
+  | (none, s') => (MEMORY_ERROR, [], s')
+  | (some nodes, s') =>
+    if n = 0 then (INVALID_HANDLE, [], s')
+    else
+      match alloc failAt s' with                                  -- the array
+      | (none, s'') => (MEMORY_ERROR, [], freeNodes nodes s'')
+      | (some arr, s'') =>
+        match namesNormLoop failAt arr nodes [] s'' with
+        | (none, s3) => (MEMORY_ERROR, [], s3)
+        | (some names, s3) => (OK, arr :: names, s3)
+
+-- ---------------------------------------------------------------------------------------------------------------
 -- cif_value_deserialize(blob, len, dest) for the blob of a LIST value (the library stores only lists and tables as
--- blobs) whose elements are unknown/na values, character values and lists of such; `dest` exists before the call.
--- Not covered: numbers (they run cif_value_parse_numb, open finding F31 …/cif_value_parse_numb/leak) and tables.
+-- blobs) whose elements are unknown/na values, character values, numbers and lists of such; `dest` exists before the call.
+-- (Table blobs: Model/LadderMap.lean, `deserTable`.)  Not covered: tables nested inside list elements or table entries.
+-- Since /repo 2b403f6 the failure code is CIF_MEMORY_ERROR (it used to be the default CIF_ERROR), since fe019d6 the text
+-- of a number is released when cif_value_parse_numb fails.
 
 /-- shapes covered by the deserialisation ladder -/
 inductive DShape
   | scalar                        -- unknown / not-applicable
   | chr                           -- character value: the text
+  | numb (hasSu : Bool)           -- number: the text, then cif_value_parse_numb: su_digits (if any), digits
   | lst (elems : List DShape)     -- list: element array (none when empty) + the elements
 deriving Repr
 
@@ -453,6 +488,23 @@ mutual
       match alloc failAt s with                                   -- DESERIALIZE_USTRING: malloc((size + 1) * sizeof(UChar))
       | (none, s') => (none, free obj s')
       | (some t, s') => (some (.chr obj t), s')
+    | .numb hasSu, s =>
+      match alloc failAt s with                                   -- DESERIALIZE_USTRING: the text
+      | (none, s') => (none, free obj s')
+      | (some t, s') =>
+        -- cif_value_parse_numb(v, text): su_digits first (when the text has an uncertainty), then digits; on failure
+        -- `free(v->as_char.text)` (since fe019d6), then vfail
+        if hasSu then
+          match alloc failAt s' with                              -- n_temp.su_digits
+          | (none, s'') => (none, free obj (free t s''))           -- FAIL(early): nothing of its own to release
+          | (some u, s'') =>
+            match alloc failAt s'' with                           -- n_temp.digits
+            | (none, s3) => (none, free obj (free t (free u s3)))   -- FAILURE_HANDLER(late): free(su_digits)
+            | (some d, s3) => (some (.numb obj t d (some u)), s3)
+        else
+          match alloc failAt s' with                              -- n_temp.digits
+          | (none, s'') => (none, free obj (free t s''))
+          | (some d, s'') => (some (.numb obj t d none), s'')
     | .lst elems, s =>
       if elems.isEmpty then (some (.scalar obj), s)
       else
@@ -476,15 +528,15 @@ mutual
 end
 
 /-- `cif_value_deserialize` of a list blob onto the existing object `dest` (not a block of the window).
-    Returns (result code, component ids `dest` gained, final state); the failure code is CIF_ERROR (DEFAULT_FAIL). -/
+    Returns (result code, component ids `dest` gained, final state); the failure code is CIF_MEMORY_ERROR. -/
 def deserialize (failAt : Nat) (elems : List DShape) (s : St := {}) : Nat × Option (List Nat) × St :=
   if elems.isEmpty then (OK, some [], s)
   else
     match alloc failAt s with
-    | (none, s') => (ERROR, none, s')
+    | (none, s') => (MEMORY_ERROR, none, s')
     | (some arr, s') =>
       match deserElems failAt elems [] s' with
       | (some es, s'') => (OK, some (arr :: Owned.idsList es), s'')
-      | (none, s'') => (ERROR, none, free arr s'')
+      | (none, s'') => (MEMORY_ERROR, none, free arr s'')
 
 end CifModel.Model.Ladder
